@@ -1,4 +1,184 @@
+/-
+Property C12 — difference-logic relation literals and expression queries mean what they say.
+
+`Dl.newRel` transcribes the twenty sign / arity branches of `new_lt … new_gt` (one text for
+idl_theory and rdl_theory), `Dl.boundsLin / distanceLin / equatesLin` the expression queries.
+`relOut` below is the specification-side reading of a request: which difference constraints the
+relation between two linear expressions amounts to.  The theorems say (i) `newRel` posts exactly
+those constraints through `new_distance` (for BOTH instances), (ii) over the integers those
+constraints hold exactly when the relation holds, for either sign and order of the variables,
+one- and two-variable forms, strict and non-strict relations, (iii) the expression queries are
+the exact image of the variable-level distances.  The semantic part (ii)/(iii) is proved for the
+integer instance; the real instance shares (i) and is judged by the oracle of the check.
+-/
 import OratioModel
+import OratioProofs.Lemmas.DlRel
+import OratioProofs.Properties.C15
+
 namespace Oratio
-theorem C12_placeholder : Dl.relConst .leq R.zero = true := by decide
+open Dl
+
+/-- the constraints a request amounts to: `x_dst - x_src ≤ w` -/
+inductive RelOut (α : Type) where
+  | const (b : Bool)
+  | one (src dst : Nat) (w : α)
+  | two (src1 dst1 : Nat) (w1 : α) (src2 dst2 : Nat) (w2 : α)
+  | invalid
+
+/-- specification-side normal form of `left REL right` -/
+def relOut {α : Type} (O : DOps α) (r : Rel) (left right : Lin) : RelOut α :=
+  let expr := Lin.sub left right
+  match expr.vars with
+  | [] => .const (relConst r expr.known)
+  | [(x, c)] =>
+    let k := (Lin.divR expr c).known
+    -- (x REL' -k) with REL' flipped when c < 0
+    let flip := R.lt c R.zero
+    let strict : Int := if r = .lt ∨ r = .gt then -1 else 0
+    match r with
+    | .eq => match O.mkB k 0, O.mkB (R.neg k) 0 with
+      | some a, some b => .two x 0 a 0 x b
+      | _, _ => .invalid
+    | _ =>
+      if (r = .lt ∨ r = .leq) == flip then (match O.mkB k strict with | some a => .one x 0 a | none => .invalid)
+      else (match O.mkB (R.neg k) strict with | some a => .one 0 x a | none => .invalid)
+  | [(v0, c0), (v1, _)] =>
+    let e := Lin.divR expr c0
+    let k := e.known
+    let c1 := (Lin.find e.vars v1).getD R.zero
+    if R.ne c1 (R.neg R.one) then .invalid
+    else
+      let flip := R.lt c0 R.zero
+      let strict : Int := if r = .lt ∨ r = .gt then -1 else 0
+      match r with
+      | .eq => match O.mkB k 0, O.mkB (R.neg k) 0 with
+        | some a, some b => .two v0 v1 a v1 v0 b
+        | _, _ => .invalid
+      | _ =>
+        if (r = .lt ∨ r = .leq) == flip then (match O.mkB k strict with | some a => .one v0 v1 a | none => .invalid)
+        else (match O.mkB (R.neg k) strict with | some a => .one v1 v0 a | none => .invalid)
+  | _ => .invalid
+
+/-- (i) `newRel` does what `relOut` says, through `new_distance` (and `new_conj` for equality,
+    after the pre-check against the current distance of the pair); `invalid` = the C++ throws -/
+theorem C12_newRel_refines {α : Type} (O : DOps α) (nc : Sat → List Lit → Lit × Sat) (s : Sat) (t : Dl α)
+    (r : Rel) (left right : Lin) :
+    newRel O nc s t r left right =
+      (match relOut O r left right with
+       | .const b => some (if b then Lit.trueLit else Lit.falseLit, s, t)
+       | .one src dst w => some (newDistance O s t src dst w)
+       | .two s1 d1 w1 s2 d2 w2 =>
+         if O.le (distance O t s1 d1).1 w1 && O.le w1 (distance O t s1 d1).2 then
+           let (l1, sa, ta) := newDistance O s t s1 d1 w1
+           let (l2, sb, tb) := newDistance O sa ta s2 d2 w2
+           let (l, sc) := nc sb [l1, l2]
+           some (l, sc, tb)
+         else some (Lit.falseLit, s, t)
+       | .invalid => none) := by
+  have e : relOut O r left right = DlRel.relOutK O r left right .const .one .two .invalid := rfl
+  rw [e]
+  exact (DlRel.newRel_eq O nc s t r left right).trans
+    (DlRel.relOutK_map (fun x : RelOut α => match x with
+       | .const b => some (if b then Lit.trueLit else Lit.falseLit, s, t)
+       | .one src dst w => some (newDistance O s t src dst w)
+       | .two s1 d1 w1 s2 d2 w2 =>
+         if O.le (distance O t s1 d1).1 w1 && O.le w1 (distance O t s1 d1).2 then
+           let (l1, sa, ta) := newDistance O s t s1 d1 w1
+           let (l2, sb, tb) := newDistance O sa ta s2 d2 w2
+           let (l, sc) := nc sb [l1, l2]
+           some (l, sc, tb)
+         else some (Lit.falseLit, s, t)
+       | .invalid => none) O r left right .const .one .two .invalid).symm
+
+/-! ## (ii) integer semantics -/
+
+/-- value of a linear expression under an integer valuation -/
+def Lin.evalI (l : Lin) (σ : Nat → Int) : Rat := (l.vars.map (fun t => t.2.toRat * (σ t.1 : Rat))).sum + l.known.toRat
+
+def relHolds (r : Rel) (a b : Rat) : Prop :=
+  match r with
+  | .lt => a < b | .leq => a ≤ b | .eq => a = b | .geq => a ≥ b | .gt => a > b
+
+def edgeHolds (σ : Nat → Int) (src dst : Nat) (w : Int) : Prop := σ dst - σ src ≤ w
+
+/-- the relation between two linear expressions holds exactly when the constraints of its
+    normal form hold — for every integer valuation with the origin at 0, for all five relations,
+    any non-zero coefficients, either variable order, one- and two-variable forms; and a request
+    is rejected only when the expressions are not an integer difference -/
+theorem C12_idl_relation_meaning (r : Rel) (left right : Lin) (hl : left.WF) (hr : right.WF)
+    (σ : Nat → Int) (h0 : σ 0 = 0) :
+    match relOut idlOps r left right with
+    | .const b => (b = true ↔ relHolds r (Lin.evalI left σ) (Lin.evalI right σ))
+    | .one src dst w => (edgeHolds σ src dst w ↔ relHolds r (Lin.evalI left σ) (Lin.evalI right σ))
+    | .two s1 d1 w1 s2 d2 w2 => ((edgeHolds σ s1 d1 w1 ∧ edgeHolds σ s2 d2 w2) ↔ relHolds r (Lin.evalI left σ) (Lin.evalI right σ))
+    | .invalid => True := by
+  have e : relOut idlOps r left right = DlRel.relOutK idlOps r left right .const .one .two .invalid := rfl
+  have hH : relHolds r (Lin.evalI left σ) (Lin.evalI right σ) ↔
+      DlRel.holds r (Lin.eval left (fun v => (σ v : Rat))) (Lin.eval right (fun v => (σ v : Rat))) := by
+    cases r <;> exact Iff.rfl
+  have h := DlRel.relOutK_idl_meaning r left right hl hr σ h0 _ hH
+  rw [e]
+  exact (DlRel.relOutK_map (fun x : RelOut Int => (match x with
+    | .const b => (b = true ↔ relHolds r (Lin.evalI left σ) (Lin.evalI right σ))
+    | .one src dst w => (edgeHolds σ src dst w ↔ relHolds r (Lin.evalI left σ) (Lin.evalI right σ))
+    | .two s1 d1 w1 s2 d2 w2 => ((edgeHolds σ s1 d1 w1 ∧ edgeHolds σ s2 d2 w2) ↔ relHolds r (Lin.evalI left σ) (Lin.evalI right σ))
+    | .invalid => True : Prop)) idlOps r left right .const .one .two .invalid).mpr h
+
+/-- what is rejected: the difference has more than two variables, two variables whose
+    coefficients are not opposite, or a constant that is not an integer multiple of the
+    coefficient -/
+theorem C12_idl_invalid_iff (r : Rel) (left right : Lin) (hl : left.WF) (hr : right.WF) :
+    (∃ x, relOut idlOps r left right = x ∧ (match x with | .invalid => True | _ => False)) ↔
+      (let e := Lin.sub left right
+       match e.vars with
+       | [] => False
+       | [(_, c)] => (R.div e.known c).den ≠ 1
+       | [(_, c0), (_, c1)] => R.ne (R.div c1 c0) (R.neg R.one) = true ∨ (R.div e.known c0).den ≠ 1
+       | _ => True) := by
+  have h := DlRel.relOutK_idl_invalid r left right hl hr
+  have hm := DlRel.relOutK_map (fun x : RelOut Int => (match x with | .invalid => True | _ => False : Prop))
+    idlOps r left right .const .one .two .invalid
+  refine Iff.trans ?_ (Iff.trans (Eq.to_iff hm) h)
+  constructor
+  · rintro ⟨x, rfl, hx⟩; exact hx
+  · intro hx; exact ⟨_, rfl, hx⟩
+
+/-! ## (iii) expression queries -/
+
+/-- `bounds(c·x + k)` and `bounds(c·(x − y) + k)` contain the value of the expression in every
+    valuation that respects the variable-level distances, for either sign of `c`; and both ends
+    are attained by the ends of the variable-level interval (exact image). -/
+theorem C12_idl_bounds_lin_sound (t : Dl Int) (l : Lin) (hl : l.WF) (lo hi : Int)
+    (hb : boundsLin idlOps t l = some (lo, hi))
+    (hfin : ∀ v ∈ l.vars.map (·.1), ∀ u ∈ (0 :: l.vars.map (·.1)), Dl.d idlOps t v u ≠ idlInf ∧ Dl.d idlOps t u v ≠ idlInf)
+    (σ : Nat → Int) (h0 : σ 0 = 0)
+    (hσ : ∀ v ∈ (0 :: l.vars.map (·.1)), ∀ u ∈ (0 :: l.vars.map (·.1)), σ u - σ v ≤ Dl.d idlOps t v u) :
+    (lo : Rat) ≤ Lin.evalI l σ ∧ Lin.evalI l σ ≤ (hi : Rat) := by
+  have _ := hfin
+  exact DlRel.boundsLin_idl_sound t l hl lo hi hb σ h0 hσ
+
+theorem C12_idl_bounds_lin_image (t : Dl Int) (x : Nat) (c k : Int) (hc : c ≠ 0) :
+    boundsLin idlOps t ⟨[(x, R.ofInt c)], R.ofInt k⟩ =
+      some (if c > 0 then (c * Dl.lb idlOps t x + k, c * Dl.ub idlOps t x + k) else (c * Dl.ub idlOps t x + k, c * Dl.lb idlOps t x + k)) ∧
+    (∀ y, x < y → boundsLin idlOps t ⟨[(x, R.ofInt c), (y, R.ofInt (-c))], R.ofInt k⟩ =
+      some (if c > 0 then (c * (Dl.distance idlOps t y x).1 + k, c * (Dl.distance idlOps t y x).2 + k)
+            else (c * (Dl.distance idlOps t y x).2 + k, c * (Dl.distance idlOps t y x).1 + k))) := by
+  exact DlRel.boundsLin_idl_image t x c k hc
+
+/-- `distance(from, to)` is `bounds(to − from)`; `equates(l0, l1)` holds exactly when 0 lies
+    within `bounds(l0 − l1)` (one-variable operands) -/
+theorem C12_distance_equates_agree {α : Type} (O : DOps α) (t : Dl α) (a b : Lin) :
+    distanceLin O t a b = boundsLin O t (Lin.sub b a) ∧
+    (∀ x c k y d m, a = ⟨[(x, c)], k⟩ → b = ⟨[(y, d)], m⟩ →
+      equatesLin O t a b = (boundsLin O t (Lin.sub a b)).map (fun p => O.leZero p.1 && O.geZero p.2)) := by
+  refine ⟨rfl, ?_⟩
+  intro x c k y d m ha hb
+  subst ha hb
+  rfl
+
+/-! ## non-vacuity -/
+example : (match relOut idlOps .gt ⟨[(1, R.one)], R.zero⟩ ⟨[(2, R.one)], R.ofInt 2⟩ with | .one 1 2 (-3) => True | _ => False) := by
+  rw [show relOut idlOps .gt ⟨[(1, R.one)], R.zero⟩ ⟨[(2, R.one)], R.ofInt 2⟩ = .one 1 2 (-3) from rfl]
+  trivial
+
 end Oratio
